@@ -96,7 +96,20 @@ def domain(tier):
         p.Min((x, p.Max((y, 2)))), p.NaN(), p.FunctionSymbol(), p.Sum(()), p.Product(()),
         p.Lookup(p.Call(f, (x,)), "attr"), p.Subscript(p.Lookup(p.Variable("o"), "arr"), x),
     ]
+    # variables of Variable subclasses (the library's MultiVectorVariable; a user subclass with an extra field): variables like any other
+    from pymbolic.geometric_algebra.primitives import MultiVectorVariable as MVV
+    if not _VSUB:
+        @p.expr_dataclass()
+        class TaggedVariable(p.Variable):
+            tag: str = "t"
+        _VSUB.append(TaggedVariable)
+    TV = _VSUB[0]
+    ex += [MVV("v"), TV("u", "k"), p.Sum((x, MVV("v"))), p.Product((MVV("v"), p.Subscript(a, MVV("w")))), p.Call(f, (TV("u"), MVV("v"))), p.Power(MVV("x"), TV("y")),
+           p.CommonSubexpression(p.Sum((MVV("v"), 1))), p.Lookup(MVV("v"), "re"), p.Quotient(TV("u", "k"), p.Sum((x, TV("u", "j"))))]
     return trees.dedup(ex)
+
+
+_VSUB = []
 
 
 def bounded(tier, seed, procs):
